@@ -89,7 +89,8 @@ Definition anyb (n : nat) (B : mat bool) : bool :=
   existsb (fun i => existsb (fun j => B i j) (seq 0 n)) (seq 0 n).
 Definition znz (z : Z) : bool := negb (Z.eqb z 0).
 
-(* while np.any(L): D += n*L; n += 1; nPATH = nPATH.G; L = (nPATH != 0) * (D == 0) *)
+(* while np.any(L): D += n*L; n += 1; nPATH = (np.dot(nPATH, G) != 0).astype(float); L = (nPATH != 0) * (D == 0)
+   (the power is clipped to its support each round since repo commit aa68b44) *)
 Fixpoint dbin_loop (fuel n : nat) (G : mat Z) (D : mat nat) (d : nat) (nPATH : mat Z) (Lm : mat bool)
   : option (mat nat) :=
   match fuel with
@@ -97,7 +98,8 @@ Fixpoint dbin_loop (fuel n : nat) (G : mat Z) (D : mat nat) (d : nat) (nPATH : m
   | S f =>
     if anyb n Lm then
       let D' := tab 0%nat n n (fun i j => (D i j + (if Lm i j then d else 0))%nat) in
-      let nP := tab 0 n n (matmul n nPATH G) in
+      let P := tab 0 n n (matmul n nPATH G) in
+      let nP := tab 0 n n (fun i j => b2z (znz (P i j))) in
       let L' := tab false n n (fun i j => znz (nP i j) && Nat.eqb (D' i j) 0) in
       dbin_loop f n G D' (S d) nP L'
     else Some D
